@@ -261,6 +261,7 @@ pub fn stream_family(level: u32) -> Vec<Script> {
         out.push(Script { family: "STREAM".into(), name: sname(&["STREAM", "recursive-visit", p0, p1, "seq"]), ast, peers: peers3() });
     }
     out.extend(route_family(level));
+    out.extend(mix_family(level));
     // a stream derived from another one inside a fold (`ap i $t`), then folded itself with a call chain per value:
     // the positions of the ap entries depend on the local order of $s, which differs between peers
     for (p1, p2) in [("A", "B"), ("B", "C"), ("B", "A")] {
@@ -272,6 +273,121 @@ pub fn stream_family(level: u32) -> Vec<Script> {
         let work = fold(Arg::Stream("$t".into()), "o", par(seq(call(p1, "work", vec![var("o")], sc("x")), call(p2, "done", vec![var("x")], sc("y"))), I::Next("o".into())));
         out.push(Script { family: "STREAM".into(), name: sname(&["STREAM", "derived-stream", p1, p2, "par"]), ast: par(writers.clone(), par(copy.clone(), work.clone())), peers: peers3() });
         out.push(Script { family: "STREAM".into(), name: sname(&["STREAM", "derived-stream", p1, p2, "seq"]), ast: seq(writers, seq(copy, work)), peers: peers3() });
+    }
+    out
+}
+
+/// Shapes the base STREAM grammar does not produce: folds over canonical streams and maps, nested stream folds,
+/// a `new`-scoped stream per stream-fold iteration, two canonicalizations of one stream, a stream write in an xor
+/// handler, iterator-dependent branching inside a stream fold, `last` instruction with a par/next body.
+pub fn mix_family(level: u32) -> Vec<Script> {
+    let mut out = vec![];
+    let mut push = |name: Vec<&str>, ast: I| out.push(Script { family: "STREAM".into(), name: sname(&name), ast, peers: peers3() });
+    let pairs: Vec<(&str, &str)> = if level == 0 { vec![("A", "B"), ("B", "C")] } else { vec![("A", "B"), ("B", "C"), ("B", "A"), ("B", "B"), ("C", "B")] };
+    for (p1, p2) in pairs.iter().copied() {
+        let pn = format!("{p1}{p2}");
+        let writers = || par(call(p1, "f1", vec![], st("$s")), call(p2, "f2", vec![], st("$s")));
+        // M1: scalar fold over the canonical stream
+        for (cp, vp) in [("A", "B"), ("B", "A"), ("B", "C")] {
+            if level == 0 && cp == "B" && vp == "C" && p1 != "A" {
+                continue;
+            }
+            for shape in ["seq", "par"] {
+                let visit = call(vp, "visit", vec![var("i")], Out::None);
+                let body = if shape == "seq" { seq(visit, I::Next("i".into())) } else { par(visit, I::Next("i".into())) };
+                push(vec!["STREAM", "mix", "fold-over-canon", &pn, cp, vp, shape], seq(writers(), seq(canon(cp, "$s", "#cn"), fold(Arg::Canon("#cn".into()), "i", body))));
+            }
+        }
+        // M2: nested stream folds
+        for shape in ["seq", "par"] {
+            let inner_call = call(p2, "visit2", vec![var("i"), var("j")], Out::None);
+            let (inner, outer_wrap): (I, fn(I, I) -> I) = if shape == "seq" { (seq(inner_call, I::Next("j".into())), seq) } else { (par(inner_call, I::Next("j".into())), par) };
+            let nested = fold(Arg::Stream("$s".into()), "i", outer_wrap(fold(Arg::Stream("$t".into()), "j", inner), I::Next("i".into())));
+            push(vec!["STREAM", "mix", "nested-folds", &pn, shape], seq(writers(), seq(call(p1, "g1", vec![], st("$t")), nested)));
+        }
+        // M3: a stream scoped by `new` inside every iteration of a stream fold
+        {
+            let scoped = new("$n", seq(call(p2, "w", vec![var("i")], st("$n")), seq(canon(p2, "$n", "#cn"), call(p1, "obs", vec![Arg::Canon("#cn".into())], Out::None))));
+            push(vec!["STREAM", "mix", "new-in-stream-fold", &pn, "seq"], seq(writers(), fold(Arg::Stream("$s".into()), "i", seq(scoped.clone(), I::Next("i".into())))));
+            if level > 0 {
+                push(vec!["STREAM", "mix", "new-in-stream-fold", &pn, "par"], seq(writers(), fold(Arg::Stream("$s".into()), "i", par(scoped, I::Next("i".into())))));
+            }
+        }
+        // M4: two canonicalizations of one stream, a write in between
+        push(
+            vec!["STREAM", "mix", "two-canons", &pn],
+            seq(writers(), seq(canon("A", "$s", "#c1"), seq(call(p2, "f3", vec![], st("$s")), seq(canon("B", "$s", "#c2"), call("A", "obs", vec![Arg::Canon("#c1".into()), Arg::Canon("#c2".into())], sc("o")))))),
+        );
+        // M5: a stream write performed by an xor handler, next to a plain writer
+        push(
+            vec!["STREAM", "mix", "write-in-handler", &pn],
+            seq(par(xor(call(p1, "fail1", vec![], Out::None), call(p1, "f1", vec![], st("$s"))), call(p2, "f2", vec![], st("$s"))), seq(canon("A", "$s", "#cn"), call("B", "obs", vec![Arg::Canon("#cn".into())], sc("o")))),
+        );
+        // M7: the iterator value selects the branch taken in each iteration
+        push(
+            vec!["STREAM", "mix", "branch-on-iterator", &pn],
+            seq(
+                writers(),
+                fold(
+                    Arg::Stream("$s".into()),
+                    "i",
+                    seq(xor(I::Match(Arg::Lens("i".into(), ".f".into()), Arg::Str("f1".into()), Box::new(call("A", "onf1", vec![var("i")], Out::None))), call("B", "other", vec![var("i")], Out::None)), I::Next("i".into())),
+                ),
+            ),
+        );
+        // M9: a run that merges a remote stream value and then ends with an uncaught catchable error, while another
+        // request of the peer is still pending: the data of the failed run is what the peer's next run starts from.
+        // (A failure inside a stream fold is swallowed by the fold, so the failure sits after a fire-and-forget call
+        // that makes the remote peer forward the particle although its own run fails too.)
+        for (caught, wn) in [(false, "uncaught"), (true, "caught-later")] {
+            if caught && level == 0 && p1 != "A" {
+                continue;
+            }
+            let ws = par(call(p1, "f1", vec![], st("$s")), seq(call(p2, "f2", vec![], st("$s")), call(p2, "g", vec![], sc("flag"))));
+            let failing = seq(par(call("A", "use", vec![var("flag")], sc("z")), I::Null), I::Mismatch(Arg::Lens("flag".into(), ".f".into()), Arg::Str("g".into()), Box::new(I::Null)));
+            let tail = if caught { xor(failing, seq(canon("A", "$s", "#cn"), call("A", "obs", vec![Arg::Canon("#cn".into())], sc("o")))) } else { failing };
+            push(vec!["STREAM", "mix", "fail-after-merging-remote-value", &pn, wn], seq(par(ws, call("A", "slow", vec![], sc("q"))), tail));
+        }
+        // M10: the same stream folded twice in a row; the second fold appends to the stream it iterates (a literal, once,
+        // when it meets the value of f1) - every fold visits every value, including the one appended meanwhile
+        for (vp1, vp2) in [("A", "A"), ("A", "B"), ("B", "A")] {
+            if level == 0 && vp1 == "B" && p1 != "A" {
+                continue;
+            }
+            // (a stream fold without a last instruction never completes, so the seq would not go on: last = null)
+            let first = I::Fold { iterable: Arg::Stream("$s".into()), iter: "i".into(), body: Box::new(seq(call(vp1, "visit1", vec![var("i")], Out::None), I::Next("i".into()))), last: Some(Box::new(I::Null)) };
+            let grow = xor(I::Match(Arg::Lens("j".into(), ".f".into()), Arg::Str("f1".into()), Box::new(I::Ap { src: Arg::Str("extra".into()), dst: "$s".into() })), I::Null);
+            let second = fold(Arg::Stream("$s".into()), "j", seq(seq(call(vp2, "visit2", vec![var("j")], Out::None), grow), I::Next("j".into())));
+            push(vec!["STREAM", "mix", "two-folds-second-appends", &pn, vp1, vp2], seq(writers(), seq(first, second)));
+        }
+        // M11: a whole canonical stream copied into a scalar and handed to a service on another peer
+        for (cp, op) in [("A", "B"), ("B", "A"), ("B", "C")] {
+            if level == 0 && cp == "B" && op == "C" && p1 != "A" {
+                continue;
+            }
+            push(
+                vec!["STREAM", "mix", "canon-copied-to-scalar", &pn, cp, op],
+                seq(writers(), seq(canon(cp, "$s", "#cn"), seq(I::Ap { src: Arg::Canon("#cn".into()), dst: "whole".into() }, call(op, "obs", vec![var("whole")], sc("o"))))),
+            );
+        }
+        // M8: par/next body with a last instruction
+        push(
+            vec!["STREAM", "mix", "par-next-with-last", &pn],
+            seq(
+                writers(),
+                I::Fold { iterable: Arg::Stream("$s".into()), iter: "i".into(), body: Box::new(par(call(p2, "visit", vec![var("i")], Out::None), I::Next("i".into()))), last: Some(Box::new(call(p1, "last", vec![], Out::None))) },
+            ),
+        );
+    }
+    // M6: fold over a canonical stream map
+    for (p1, p2) in pairs.iter().copied() {
+        let ins = |peer: &str, idx: usize, key: &str| seq(call(peer, &format!("f{idx}"), vec![], sc(&format!("v{idx}"))), I::ApMap { key: Arg::Str(key.into()), value: var(&format!("v{idx}")), map: "%m".into() });
+        for keys in [("k1", "k2"), ("k1", "k1")] {
+            push(
+                vec!["STREAM", "mix", "fold-over-canon-map", &format!("{p1}{p2}"), keys.1],
+                seq(par(ins(p1, 1, keys.0), ins(p2, 2, keys.1)), seq(canon("A", "%m", "#%c"), fold(Arg::CanonMap("#%c".into()), "kv", seq(call("B", "visit", vec![var("kv")], Out::None), I::Next("kv".into()))))),
+            );
+        }
     }
     out
 }
